@@ -204,6 +204,20 @@ class WriterAnalysis:
                 self.sites[sid] = self.tag_expr(n.args[0])
                 st["born"].setdefault(sid, st["path"])
                 return {sid}
+            if dotted(n.func) == "etree.SubElement":
+                # `etree.SubElement(parent, tag)` = `child = etree.Element(tag); parent.append(child)` (lxml: created and appended
+                # as the LAST child of `parent`), the value of the call is the child
+                if len(n.args) != 2 or n.keywords:
+                    raise Unsupported("etree.SubElement with attributes")
+                parents = self.ev(n.args[0], st)
+                sid = f"{st['qn']}@{n.lineno - st['line0']}:{n.col_offset}"
+                self.sites[sid] = self.tag_expr(n.args[1])
+                st["born"].setdefault(sid, st["path"])
+                if not parents and self.final:
+                    raise Unsupported(f"parent of {ast.unparse(n)}")
+                for t in parents:
+                    st["rec"].append(("edge", t, sid, "", st["path"], ""))
+                return {sid}
             callee = self.resolve(n.func, st["cls"])
             if callee is None:
                 for a in list(n.args) + [k.value for k in n.keywords]:
@@ -263,6 +277,7 @@ class WriterAnalysis:
     def stmt(self, s, st, mult, rec):
         env, senv = st["env"], st["senv"]
         mult = st["path"]
+        st["rec"] = rec        # where an expression with an effect on the tree (`etree.SubElement`) records it
         if isinstance(s, ast.Expr) and isinstance(s.value, ast.Constant):
             return
         if isinstance(s, (ast.Assign, ast.AnnAssign)):
